@@ -11,6 +11,7 @@ import FFVerif.Props.C05
 import FFVerif.Props.C06
 import FFVerif.Props.C07
 import FFVerif.Props.C09
+import FFVerif.Model.Miner
 import FFVerif.Props.C19
 import FFVerif.Gen.MeanStress
 import FFVerif.Gen.Wave
@@ -41,6 +42,24 @@ def handle (toks : List String) : Option String :=
   | "gen" :: "MeanStress" :: name :: args => do showGen (Gen.evalMeanStress name (← parseFloats args))
   | "gen" :: "Wave" :: name :: args => do showGen (Gen.evalWave name (← parseFloats args))
   | "gen" :: "Wind" :: name :: args => do showGen (Gen.evalWind name (← parseFloats args))
+  | ["miner", "classic", lim, sn, rows] => do
+    let lim ← parseFloats [lim]
+    let sn ← parseFloats ((sn.splitOn ",").filter (· ≠ ""))
+    let rows ← parseFloats ((rows.splitOn ",").filter (· ≠ ""))
+    let pairs := fun (a : Array Float) => (List.range (a.size / 2)).map (fun i => (a[2 * i]!, a[2 * i + 1]!))
+    some s!"{(Miner.classic (pairs rows) (pairs sn) lim[0]!).toBits.toNat}"
+  | ["miner", "naive", rows] => do
+    let rows ← parseFloats ((rows.splitOn ",").filter (· ≠ ""))
+    let pairs := fun (a : Array Float) => (List.range (a.size / 2)).map (fun i => (a[2 * i]!, a[2 * i + 1]!))
+    some s!"{(Miner.naive (pairs rows)).toBits.toNat}"
+  | ["miner", "logN", lim, sn, S] => do
+    let lim ← parseFloats [lim]
+    let S ← parseFloats [S]
+    let sn ← parseFloats ((sn.splitOn ",").filter (· ≠ ""))
+    let pairs := fun (a : Array Float) => (List.range (a.size / 2)).map (fun i => (a[2 * i]!, a[2 * i + 1]!))
+    match Miner.getN (pairs sn) lim[0]! S[0]! with
+    | some v => some s!"{(Float.log10 v).toBits.toNat}"
+    | none => some "sentinel"
   | "c09lin" :: args => do
     let a ← parseFloats args
     if a.size = 5 then some s!"{(C09.linearResidual a[0]! a[1]! a[2]! a[3]! a[4]!).toBits.toNat}" else none
